@@ -292,25 +292,115 @@ def _run():
     live_state = set(vars(IM.ProtoImporter(vckt.Package())))
     if not live_state <= state:
         die(f"ProtoImporter: live attributes {sorted(live_state)} not all found in the source {sorted(state)}")
-    memo = []
-    for n in ast.walk(im):
-        if isinstance(n, (ast.FunctionDef, ast.ClassDef)):
-            memo += ["decorator:" + ast.unparse(d) for d in n.decorator_list]
-    for st_ in im.body:
-        if isinstance(st_, (ast.Assign, ast.AnnAssign)) and st_.value is not None and \
-                isinstance(st_.value, (ast.Dict, ast.List, ast.Set, ast.Call, ast.DictComp, ast.ListComp, ast.SetComp)):
-            tg = st_.targets[0] if isinstance(st_, ast.Assign) else st_.target
-            if isinstance(tg, ast.Name) and isinstance(st_.value, (ast.Dict, ast.List, ast.Set)) and _read_only(im, tg.id, st_):
-                continue      # a constant table (a literal that is only ever looked up) remembers nothing
-            if isinstance(st_.value, ast.Call) and isinstance(st_.value.func, ast.Name) and st_.value.func.id in ("frozenset", "tuple") \
-                    and not st_.value.keywords and not any(isinstance(q, (ast.Call, ast.Lambda)) for a in st_.value.args for q in ast.walk(a)):
-                continue      # an immutable collection cannot remember a call either
-            memo.append("global:" + ast.unparse(tg))
-    for n in ast.walk(im):
-        if isinstance(n, ast.FunctionDef):
-            for dflt in n.args.defaults + [d for d in n.args.kw_defaults if d is not None]:
-                if isinstance(dflt, (ast.Dict, ast.List, ast.Set, ast.Call)):
-                    memo.append(f"mutable-default:{n.name}")
+    def _memo_of(tree, harmless_class_decorators=()):
+        """anything in a source file that could remember an earlier call: decorators (of functions; of classes unless named as a
+        plain record decorator), module-level containers that are not read-only constant tables, mutable defaults"""
+        memo = []
+        for n in ast.walk(tree):
+            if isinstance(n, ast.FunctionDef):
+                memo += ["decorator:" + ast.unparse(d) for d in n.decorator_list]
+            if isinstance(n, ast.ClassDef):
+                for d in n.decorator_list:
+                    f = d.func if isinstance(d, ast.Call) else d
+                    if not (isinstance(f, ast.Name) and f.id in harmless_class_decorators):
+                        memo.append("decorator:" + ast.unparse(d))
+                for st_ in n.body:       # a class-level container is shared by every instance of the class
+                    if isinstance(st_, (ast.Assign, ast.AnnAssign)) and st_.value is not None and \
+                            isinstance(st_.value, (ast.Dict, ast.List, ast.Set, ast.Call, ast.DictComp, ast.ListComp, ast.SetComp)):
+                        tg = st_.targets[0] if isinstance(st_, ast.Assign) else st_.target
+                        memo.append(f"class-level:{n.name}.{ast.unparse(tg)}")
+        for st_ in tree.body:
+            if isinstance(st_, (ast.Assign, ast.AnnAssign)) and st_.value is not None and \
+                    isinstance(st_.value, (ast.Dict, ast.List, ast.Set, ast.Call, ast.DictComp, ast.ListComp, ast.SetComp)):
+                tg = st_.targets[0] if isinstance(st_, ast.Assign) else st_.target
+                if isinstance(tg, ast.Name) and isinstance(st_.value, (ast.Dict, ast.List, ast.Set)) and _read_only(tree, tg.id, st_):
+                    continue      # a constant table (a literal that is only ever looked up) remembers nothing
+                if isinstance(st_.value, ast.Call) and isinstance(st_.value.func, ast.Name) and st_.value.func.id in ("frozenset", "tuple") \
+                        and not st_.value.keywords and not any(isinstance(q, (ast.Call, ast.Lambda)) for a in st_.value.args for q in ast.walk(a)):
+                    continue      # an immutable collection cannot remember a call either
+                memo.append("global:" + ast.unparse(tg))
+        for n in ast.walk(tree):
+            if isinstance(n, ast.FunctionDef):
+                for dflt in n.args.defaults + [d for d in n.args.kw_defaults if d is not None]:
+                    if isinstance(dflt, (ast.Dict, ast.List, ast.Set, ast.Call)):
+                        memo.append(f"mutable-default:{n.name}")
+            if isinstance(n, (ast.Global, ast.Nonlocal)):
+                memo.append("global-statement:" + ",".join(n.names))
+        return memo
+
+    def _self_state(pcls, what):
+        state = set()
+        for n in ast.walk(pcls):
+            tgts = []
+            if isinstance(n, ast.Assign):
+                tgts = n.targets
+            elif isinstance(n, (ast.AugAssign, ast.AnnAssign)):
+                tgts = [n.target]
+            for t in tgts:
+                for q in ast.walk(t):
+                    if isinstance(q, ast.Attribute) and isinstance(q.value, ast.Name) and q.value.id == "self" and isinstance(q.ctx, ast.Store):
+                        state.add(q.attr)
+            if isinstance(n, ast.Call) and getattr(n.func, "id", None) == "setattr" and n.args and getattr(n.args[0], "id", None) == "self":
+                die(f"{what}: setattr(self, ...) - cannot enumerate its state")
+        return state
+
+    memo = [m for m in _memo_of(im) if not m.startswith("global-statement:")]
+
+    # ---- the state the EXPORTER keeps: between the instances of one export (attributes of ProtoExporter), and - what must be
+    #      nothing - between two exports: decorators / module-level or class-level containers / mutable defaults in exporting.py,
+    #      attributes the exporter stores ON the objects it exports (a cache kept on the ExternalModule / Module / Signal itself),
+    #      and whether to_proto makes a new ProtoExporter per call.  ExternalModule is mutable: whatever is remembered goes stale.
+    xcls = find_class(ex, "ProtoExporter")
+    xstate = _self_state(xcls, "ProtoExporter")
+    live_x = set(vars(EX.ProtoExporter(tops=[])))
+    if not live_x <= xstate:
+        die(f"ProtoExporter: live attributes {sorted(live_x)} not all found in the source {sorted(xstate)}")
+    xmemo = _memo_of(ex, harmless_class_decorators=("datatype", "dataclass"))
+    for n in ast.walk(ex):
+        # stores on other objects than self: x.attr = ..., setattr(x, ...), x.__dict__[...] = ...
+        tgts = []
+        if isinstance(n, ast.Assign):
+            tgts = n.targets
+        elif isinstance(n, (ast.AugAssign, ast.AnnAssign)):
+            tgts = [n.target]
+        for t in tgts:
+            for q in ast.walk(t):
+                if isinstance(q, ast.Attribute) and isinstance(q.ctx, ast.Store) and isinstance(q.value, ast.Name) and q.value.id != "self":
+                    # protobuf messages under construction are local: names bound in the same function by a vckt./vlsir. constructor call
+                    fn_ = next((f for f in ast.walk(ex) if isinstance(f, ast.FunctionDef) and any(x is q for x in ast.walk(f))), None)
+                    local_msgs = set()
+                    if fn_ is not None:
+                        for a in ast.walk(fn_):
+                            if isinstance(a, ast.Assign) and isinstance(a.value, ast.Call) and len(a.targets) == 1 and isinstance(a.targets[0], ast.Name):
+                                d = dotted(a.value.func) if isinstance(a.value.func, (ast.Attribute, ast.Name)) else []
+                                if d and d[0] in ("vckt", "vlsir"):
+                                    local_msgs.add(a.targets[0].id)
+                    if q.value.id not in local_msgs:
+                        xmemo.append(f"store-on-object:{q.value.id}.{q.attr}")
+        if isinstance(n, ast.Call) and getattr(n.func, "id", None) == "setattr" and n.args and getattr(n.args[0], "id", None) != "self":
+            xmemo.append("store-on-object:setattr")
+    tp = find_func(ex, "to_proto")
+    made = [n for n in ast.walk(tp) if isinstance(n, ast.Call) and getattr(n.func, "id", None) == "ProtoExporter"]
+    fresh_exporter = len(made) == 1
+    # behaviour: two to_proto calls over one ExternalModule object return two distinct, equal packages, and a third after a port
+    # was appended declares the port (the free function likewise)
+    def _probe_fresh():
+        cell = h.ExternalModule(name="TrxCell", domain="trx", port_list=[h.Port(name="a")], paramtype=dict)
+        def pk(nm):
+            m = h.Module(name=nm)
+            conns = {p: m.add(h.Signal(name=f"n{k}", width=s.width)) for k, (p, s) in enumerate(cell.ports.items())}
+            m.add(cell({})(**conns), name="i")
+            return h.to_proto(m)
+        a, b = pk("TrxA"), pk("TrxA")
+        ok = a is not b and a == b
+        d1 = EX.export_external_module(cell)
+        cell.port_list.append(h.Port(name="b"))
+        c = pk("TrxB")
+        d2 = EX.export_external_module(cell)
+        ok = ok and [p.signal for p in c.ext_modules[0].ports] == ["a", "b"] and [p.signal for p in d2.ports] == ["a", "b"] \
+            and [p.signal for p in d1.ports] == ["a"]
+        return ok
+    live_fresh = _probe_fresh()
 
     # ---- primitive parameter classes
     Scalar = h.Scalar
@@ -370,6 +460,10 @@ def _run():
     body += f"Definition import_unset_none : bool := {_bool(unset == 2)}.\n"
     body += "Definition importer_state : list string := [" + "; ".join(map(cstr, sorted(state))) + "].  (* self.<attr> assigned in ProtoImporter *)\n"
     body += "Definition importer_memo : list string := [" + "; ".join(map(cstr, sorted(memo))) + "].  (* decorators, module-level containers, mutable defaults in importing.py *)\n"
+    body += "Definition exporter_state : list string := [" + "; ".join(map(cstr, sorted(xstate))) + "].  (* self.<attr> assigned in ProtoExporter *)\n"
+    body += "Definition exporter_memo : list string := [" + "; ".join(map(cstr, sorted(xmemo))) + "].  (* decorators, module/class-level containers, mutable defaults, stores on exported objects in exporting.py *)\n"
+    body += f"Definition to_proto_fresh_exporter : bool := {_bool(fresh_exporter)}.  (* to_proto constructs one ProtoExporter per call *)\n"
+    body += f"Definition exporter_probe_current : bool := {_bool(live_fresh)}.  (* live probe: export, append a port, export again *)\n"
     body += "Definition siprefix_names : list string := [" + "; ".join(map(cstr, siprefixes)) + "].\n"
     body += ("Definition prim_fields : list (string * string * list (string * string * bool * bool)) :=  "
              "(* primitive, type, fields: name, kind, admits None, has default *)\n  [" + ";\n   ".join(
